@@ -470,7 +470,7 @@ where
             self.local_cfg.max_data_size,
             sender_tx,
             sender_credit_user,
-            Arc::downgrade(&hangup_recved),
+            hangup_recved,
             Arc::downgrade(&hangup_notify),
             self.port_allocator.clone(),
             self.storage.clone(),
